@@ -107,6 +107,32 @@ CLAIMED["C12"] = dict(
         "targets, strict bytes decoding, tuple excess and unknown-key rejection under the flags are judged by the flag oracle on the "
         "implementation, not proved.",
    technique="Coq proofs by case analysis over the converter models + correspondence grid and flag-lattice oracle", design="§8 C12")
+CLAIMED["C05"] = dict(
+   text="Machine-checked proof (Coq): an executable per-field contract (Spec/FieldSpec.v: which keys feed a field, absence / default, "
+        "no_input, alias conflicts, on_error policies, dependencies, addition policy, min/max_params) and the theorem that "
+        "BaseParser.parse_data of the model, with either lookup strategy, succeeds exactly when the contract says so and then holds, key "
+        "by key, what the contract prescribes (C05_parse_data_implements_contract), for every well-formed declaration, options, depth, "
+        "recursive knot and input mapping of any size; plus the documented single rules as corollaries (accepted keys, missing fields, "
+        "no_input, unknown keys, ignore_required / no_default / defer_default / force_default, no_output and attribute names).",
+   note="Trusted: Coq kernel; Model/Parse.v data-class loops as a description of base.py / field.py / cls.py (tied by the fields "
+        "correspondence suite: random declarations over every Field parameter and class Options, runtime Options, __from__ and __init__); "
+        "decl.py reflection of parser objects. Hypotheses: wf_cdecl (evaluated in Coq on every reflected class; what generate_aliases / "
+        "apply_fields enforce), ignore_alias_conflicts off, repeated values coherent (== is identity) - each evaluated per case and "
+        "counted in the evidence. Not modelled: discriminator fields, typed additions, property fields, aliasing of default copies (C19).",
+   technique="Coq proof by refinement of both parsing loops to a per-field contract (fold decomposition over a product state) + "
+             "correspondence + contract evaluation on the reflected classes", design="§8 C05")
+CLAIMED["C06"] = dict(
+   text="Machine-checked proof (Coq): data_first_parse and field_first_parse of the model, each followed by the caller's raise_error in a "
+        "fresh context, both succeed with the same mapping (key by key) or both fail, for every well-formed declaration, options with "
+        "conflicts not ignored, depth, recursive knot and input mapping whose repeated values are coherent (C06_strategies_agree: both "
+        "refine the contract of C05); and parse_data under option sets that differ only in data_first_search (C06_flag_invisible).",
+   note="Trusted: as C05, with the fields suite run once per strategy on every class; the property itself is also run on the "
+        "implementation (each class declared with both flag values, same input). Six genuine strategy differences found while proving "
+        "were repaired in /repo (fix: commits 0754abf 511ff49 28b495c e770f02 af2ee76 8d9b076); two are open known findings "
+        "(ignore_alias_conflicts winner, ==-equal but different representatives) and are exactly the situations the hypotheses "
+        "exclude. Function parsers (excluded_keys, *args, **kwargs) are not modelled.",
+   technique="Coq proof: both strategies refine one contract; differential oracle on the implementation; correspondence per strategy",
+   design="§8 C06")
 NOT_YET = {}
 for i in range(1, 21):
     pid = "C%02d" % i
